@@ -76,7 +76,8 @@ def same(a, b):
 def grid(tier, rng):
     pts = [-3.0, -2.0, -1.0, -0.5, 0.0, 0.25, 0.5, 1.0, 1.5, 2.0, 3.0, 7.5]
     if tier == "thorough":
-        pts += [round(rng.uniform(-5, 5), 3) for _ in range(10)] + [1e-3, 1e3]
+        # incl. tiny magnitudes and near-ties (absolute tolerances in the code would show up here)
+        pts += [round(rng.uniform(-5, 5), 3) for _ in range(10)] + [1e-3, 1e3, 1e-13, 2e-13, 3.5e-13]
     else:
         pts += [round(rng.uniform(-5, 5), 3) for _ in range(3)]
     return pts
@@ -219,7 +220,10 @@ def judge(pid, seed, tier):
                                 add(nm + ".score_per_obs", [h, a, y, z], r, "in-domain pair must give a finite number")
                             continue
                         if pid == "C04":
-                            if r[1] < -1e-12:
+                            # tolerance relative to the natural magnitude max(|y|,|z|)^h of a degree-h homogeneous score
+                            mag = max(abs(y), abs(z))
+                            scale = min(1.0, mag ** h) if mag > 0 and h > 0 else 1.0
+                            if r[1] < -1e-12 * scale:
                                 add(nm + ".score_per_obs", [h, a, y, z], r, "score >= 0")
                             if y == z and abs(r[1]) > 1e-12:
                                 add(nm + ".score_per_obs", [h, a, y, z], r, "score = 0 at y = z")
@@ -229,12 +233,18 @@ def judge(pid, seed, tier):
                                     if r2[0] == "val" and r2[1] < r[1] - 1e-9 * (1 + abs(r[1])):
                                         add(nm + ".score_per_obs", [h, a, y, z, z2], [r, r2], "order sensitivity: S(y,z) <= S(y,z2)")
                         else:
-                            for c in (0.5, 2.0, 3.0):
+                            for c in ((0.5, 2.0, 3.0) if tier == "quick" else (0.5, 2.0, 3.0, 1e13, 1e-13)):
                                 if not dom(h, c * y, c * z):
                                     continue
                                 r2 = real(lambda: sf.score_per_obs([c * y], [c * z]))
-                                want = c ** h * r[1]
-                                if r2[0] != "val" or abs(r2[1] - want) > 1e-9 * (1 + abs(want)):
+                                try:
+                                    want = c ** h * r[1]
+                                    mag = (c * max(abs(y), abs(z))) ** h if max(abs(y), abs(z)) > 0 else 1.0
+                                except OverflowError:
+                                    continue
+                                if not (abs(want) < 1e280 and mag < 1e280):
+                                    continue
+                                if r2[0] != "val" or abs(r2[1] - want) > 1e-7 * abs(want) + 1e-9 * min(mag, 1 + abs(want)):
                                     add(nm + ".score_per_obs", [h, a, y, z, c], [r, r2], "S(cy,cz) = c^h S(y,z)")
         if pid == "C14":
             for y, z in itertools.product(pts, pts):
